@@ -58,6 +58,10 @@ def configs(tier):
                             if nk > 1:
                                 # a call sequence: steps, then knob 0 is disabled and re-tuned by hand, then the call under test
                                 dis += [("seq_tune", (), (), {})]
+                            if nt > 1:
+                                # a call sequence: a Jacobian step with every target active, then the last target is disabled, then the
+                                # call under test re-uses that Jacobian (broyden=True)
+                                dis += [("seq_dt_broyden", (), (), {})]
                             if nk > 2:
                                 # names / tags of which one is a prefix of another: the longer one disabled persistently, the shorter
                                 # one for one call only
@@ -73,7 +77,7 @@ def configs(tier):
                                              {"check_limits": False}]
                             for (dname, dv, dt, stepkw), variant in [(d, v) for d in dis for v in variants if not v or d[0] in ("none", "dv", "dt")]:
                                 calls = [("step", 1), ("step", 4)] if tier == "quick" else [("step", 1), ("step", 3), ("step", 8)]
-                                if not stepkw and dname != "seq_tune":
+                                if not stepkw and dname not in ("seq_tune", "seq_dt_broyden"):
                                     # (a failing solve() restores iteration 0, which legitimately undoes a knob the user re-tuned by
                                     # hand after iteration 0; the sequence case is therefore judged on step() calls)
                                     calls.append(("solve", None))
@@ -85,6 +89,9 @@ def configs(tier):
                                         spec.update(variant)
                                         if dname == "seq_tune":
                                             spec["pre_seq"] = True
+                                        if dname == "seq_dt_broyden":
+                                            spec["pre_dt"] = nt - 1
+                                            spec["broyden"] = True
                                         if dname == "pre_view":
                                             spec["pre_view"] = True
                                         if dname.startswith("optlog"):
@@ -151,6 +158,12 @@ def run_case(spec):
             p.opt.get_merit_function(rescale_x=(0, 1)).get_x_limits()
         except Exception:  # noqa
             pass
+    if spec.get("pre_dt") is not None:
+        try:
+            p.opt.step(1)
+        except Exception:  # noqa
+            pass
+        p.opt.disable(target=[spec["pre_dt"]])
     vflags0, tflags0 = p.vary_flags(), p.target_flags()
     k_before = p.knob_values()
     nrows0 = len(p.log_rows())
@@ -207,8 +220,23 @@ def run_case(spec):
     if spec["stepkw"] and exc is not None and isinstance(exc, TypeError):
         out.append(issue(spec, f"step({spec['stepkw']}) raised TypeError: {exc}"))
         return out, exc
+    # ---- a target disabled AFTER a Jacobian step had seen it: on a linear problem without limits the step that re-uses that
+    # Jacobian (Broyden's update is exact there) must be the step of the same problem in which the target was never active
+    if spec.get("pre_dt") is not None and p.limits is None and spec["fam"] in ("ident2", "ident3", "lin2", "lin3", "lin_wide", "lin_tall", "lin4x5"):
+        spec2 = dict(spec, x0=list(k_before), dt=(spec["pre_dt"],), broyden=False)
+        spec2.pop("pre_dt")
+        b = O.Problem(spec2)
+        exc_b = do_call(b, spec2)
+        ka, kb = p.knob_values(), b.knob_values()
+        if type(exc) is not type(exc_b) or any(abs(x - y) > 1e-6 * (1.0 + abs(y)) for x, y in zip(ka, kb)):
+            out.append(issue(spec, f"step ; target {spec['pre_dt']} disabled ; Broyden step: the knobs end at {ka!r}; the same linear problem in "
+                                   f"which that target was never active ends at {kb!r} from the same point (exceptions "
+                                   f"{type(exc).__name__ if exc else None} / {type(exc_b).__name__ if exc_b else None})"))
+            return out, exc
     # ---- a disabled target has no influence: differential twin
     dis_t = set(spec["dt"]) | idx_of(spec["stepkw"].get("disable_target"), nt, "t", p.ttags)
+    if spec.get("pre_dt") is not None:
+        dis_t.add(spec["pre_dt"])
     start = list(k_before)
     alts = [("another function", lambda k, j=0: 7.0 * k[0] - 3.0 + (k[-1] + 1.0) ** 2 + j),
             # finite at the start point, not a number / infinite everywhere else
@@ -216,7 +244,19 @@ def run_case(spec):
             ("a function that is inf away from the start point", lambda k, j=0: 1.0 + j if list(k) == start else float("inf"))]
     for j, (alt_name, alt_f) in [(j, a) for j in sorted(dis_t) for a in alts]:
         alt = (j, lambda k, j=j, alt_f=alt_f: alt_f(k, j), 11.0)
+        if spec.get("pre_dt") is not None:
+            # the twin's target is the ORIGINAL one (same function, same target value) until it has been disabled, and only then
+            # turns into something else
+            sw = {"on": False}
+            alt = (j, lambda k, j=j, alt_f=alt_f, sw=sw: alt_f(k, j) if sw["on"] else list(p.F["f"](k))[j], p.tvals[j])
         q = O.Problem(spec, alt_target=alt)
+        if spec.get("pre_dt") is not None:
+            try:
+                q.opt.step(1)
+            except Exception:  # noqa
+                pass
+            q.opt.disable(target=[spec["pre_dt"]])
+            sw["on"] = True
         from .c16 import Deadline
         try:
             with Deadline(10):
